@@ -115,6 +115,24 @@ def hex_predicates(cfg, x, y, ap):
                 if d > 10 * MARGIN * max(1.0, rho):
                     bad.append(f'gap 0: sample {[int(i), int(j)]} is in two segments and not on a shared edge')
                     break
+    # window containment: every sample of the full grid that lies inside the segment's hexagon (beyond the boundary margin)
+    # must be inside the segment's window AND set in its local mask -- a window that cuts off a row or column of the hexagon
+    # makes the segment mask (and amp) smaller than the shape
+    w3 = math.sqrt(3)
+    a_ = cfg['D'] / 2
+    for sid, c, win, m in zip(ids, ap.all_centers, ap.windows, ap.local_masks):
+        dx_, dy_ = x - c[0], y - c[1]
+        t = (dy_, w3 / 2 * dx_ + dy_ / 2, w3 / 2 * dx_ - dy_ / 2) if cfg['rot'] == 90 else (dx_, dx_ / 2 + w3 / 2 * dy_, dx_ / 2 - w3 / 2 * dy_)
+        depth = a_ - np.maximum(np.maximum(np.abs(t[0]), np.abs(t[1])), np.abs(t[2]))
+        inside = depth > MARGIN * max(1.0, rho)
+        emb = np.zeros(x.shape, dtype=bool)
+        emb[win] = m
+        lost = inside & ~emb
+        if lost.any():
+            w_ = np.argwhere(lost)
+            bad.append(f'segment {sid}: {len(w_)} samples inside its hexagon are missing from its mask, e.g. index {w_[0].tolist()} '
+                       f'(window rows [{win[0].start},{win[0].stop}) cols [{win[1].start},{win[1].stop}): the window cuts the hexagon)')
+            break
     # documented geometry: flat-to-flat diameter D, edge-to-nearest-edge separation gap => first-ring centres at D + gap
     for sid, c in zip(ids, ap.all_centers):
         if 1 <= sid <= 6 and abs(math.hypot(c[0], c[1]) - (cfg['D'] + cfg['gap'])) > 1e-9 * max(1.0, cfg['D']):
@@ -145,7 +163,7 @@ def _hex_edge_distance(cfg, c, p):
     return a - max(abs(v) for v in t)
 
 
-def opd_predicates(ap, rng, kind='hex'):
+def opd_predicates(ap, rng, kind='hex', cart=False):
     """unit piston confined to its segment; linearity; a caller-supplied `out` buffer is accumulated into, never
     overwritten (result == out_before + compose(out=None)), also in two steps.  returns list of violations"""
     sg, ge, co, po = _impl()
@@ -153,9 +171,13 @@ def opd_predicates(ap, rng, kind='hex'):
     nseg = len(ap.segment_ids)
     if nseg == 0:
         return bad
+    XY = [(0, 0), (1, 0), (0, 1), (1, 1)]          # x^m y^n monomials; the first one is the piston
     if kind == 'hex':
         nms = [po.noll_to_nm(j) for j in (1, 2, 3, 4)]
-        ap.prepare_opd_bases(po.zernike_nm_seq, nms)
+        if cart:      # "every basis": the Cartesian (x, y) branch of prepare_opd_bases
+            ap.prepare_opd_bases(po.xy_seq, XY)
+        else:
+            ap.prepare_opd_bases(po.zernike_nm_seq, nms)
         nm = len(nms)
         ncen = 0
         compose = lambda c, cc=None, out=None: ap.compose_opd(c, out=out)                     # noqa: E731
@@ -163,8 +185,13 @@ def opd_predicates(ap, rng, kind='hex'):
     else:
         nms = [po.noll_to_nm(j) for j in (1, 2, 3)]
         nms2 = [po.xy_j_to_mn(j) for j in (1, 2, 3, 4)]
-        ap.prepare_opd_bases(po.zernike_nm_seq, nms, po.xy_seq, nms2, rotate_xyaxes=True,
-                             segment_basis_kwargs=dict(cartesian_grid=False))
+        if cart:      # Cartesian basis on the centre disc as well
+            nms = XY[:3]
+            ap.prepare_opd_bases(po.xy_seq, nms, po.xy_seq, nms2, rotate_xyaxes=True,
+                                 segment_basis_kwargs=dict(cartesian_grid=False))
+        else:
+            ap.prepare_opd_bases(po.zernike_nm_seq, nms, po.xy_seq, nms2, rotate_xyaxes=True,
+                                 segment_basis_kwargs=dict(cartesian_grid=False))
         nm = len(nms2)
         ncen = len(nms)
         cz = np.zeros(ncen)
@@ -200,7 +227,7 @@ def opd_predicates(ap, rng, kind='hex'):
         c[t, 0] = 1.0
         win, m = masks[t]
         out = onto_background(f'piston on segment index {t}', c, None)
-        confined(f'segment index {t}', out, win, m, exact=(kind == 'hex'))
+        confined(f'segment index {t}', out, win, m, exact=(kind == 'hex'))   # both hex bases start with the piston
     if kind != 'hex':
         cc = np.zeros(ncen)
         cc[0] = 1.0                                # Noll 1: piston on the central disc
@@ -458,9 +485,10 @@ def correspondence(ctx):
             ctx.hist['compose_opd:skipped-empty-window'] += 1
         elif len(jobs2) % 3 == 0 or cfg['shape'][0] <= 64:
             try:
-                for b in opd_predicates(ap, rng)[:1]:
-                    ctx.pred_fail('compose_opd', case, b)
-                ctx.case('compose_opd', case, tag='hex')
+                cart = bool(len(jobs2) % 2)
+                for b in opd_predicates(ap, rng, cart=cart)[:1]:
+                    ctx.pred_fail('compose_opd', {**case, 'basis': 'xy' if cart else 'zernike'}, b)
+                ctx.case('compose_opd', case, tag='hex/' + ('xy' if cart else 'zernike'))
             except Exception as ex:
                 ctx.pred_fail('compose_opd', case, f'raised {type(ex).__name__}: {ex}')
 
@@ -596,11 +624,12 @@ def correspondence(ctx):
             ctx.pred_fail('keystone', cfg, b)
         if True:
             try:
-                for b in opd_predicates(ap, rng, kind='key')[:1]:
-                    ctx.pred_fail('compose_opd', cfg, b)
-                ctx.case('compose_opd', cfg, tag='keystone')
+                cart = bool(i % 2)
+                for b in opd_predicates(ap, rng, kind='key', cart=cart)[:1]:
+                    ctx.pred_fail('compose_opd', {**cfg, 'basis': 'xy' if cart else 'zernike'}, b)
+                ctx.case('compose_opd', cfg, tag='keystone/' + ('xy' if cart else 'zernike'))
             except Exception as ex:
-                ctx.pred_fail('compose_opd', cfg, f'keystone compose raised {type(ex).__name__}: {ex}')
+                ctx.pred_fail('compose_opd', {**cfg, 'basis': 'xy' if i % 2 else 'zernike'}, f'keystone compose raised {type(ex).__name__}: {ex}')
 
 
 def prim_predicates(kind, case, m, x, y):
@@ -718,7 +747,8 @@ def _eval(item, case):
             # unless the window is clamped by the array
         if not any(w[0].stop == w[0].start or w[1].stop == w[1].start for w in ap.windows):
             try:
-                bad += opd_predicates(ap, rng)
+                for cart in ((case.get('basis') == 'xy',) if 'basis' in case else (False, True)):
+                    bad += opd_predicates(ap, rng, cart=cart)
             except Exception as ex:
                 bad.append(f'compose_opd raised {type(ex).__name__}: {ex}')
         return bad
@@ -729,7 +759,8 @@ def _eval(item, case):
             return [f'constructor raised {type(ex).__name__}: {ex}']
         bad = key_predicates(case, x, y, ap)
         try:
-            bad += opd_predicates(ap, rng, kind='key')
+            for cart in ((case.get('basis') == 'xy',) if 'basis' in case else (False, True)):
+                bad += opd_predicates(ap, rng, kind='key', cart=cart)
         except Exception as ex:
             bad.append(f'compose_opd raised {type(ex).__name__}: {ex}')
         return bad
